@@ -334,6 +334,31 @@ pub struct RunOutput {
     pub ctx: Ctx,
 }
 
+/// Run `f` on a thread of its own (same stack size as every scenario-executing
+/// thread), so that per-thread state inside the library starts out pristine and the
+/// run does not depend on what this worker executed before.  A panic in `f` is
+/// carried over to the caller, with its recorded location.
+pub fn in_fresh_thread<R: Send>(f: impl FnOnce() -> R + Send) -> R {
+    let r = std::thread::scope(|s| {
+        std::thread::Builder::new()
+            .stack_size(RUN_STACK)
+            .spawn_scoped(s, move || {
+                let r = catch_unwind(AssertUnwindSafe(f));
+                r.map_err(|payload| (payload, LAST_PANIC.with(|p| p.borrow_mut().take())))
+            })
+            .expect("SIM-HARNESS: cannot spawn the fresh thread")
+            .join()
+            .expect("SIM-HARNESS: fresh thread died outside the scenario")
+    });
+    match r {
+        Ok(v) => v,
+        Err((payload, last)) => {
+            LAST_PANIC.with(|p| *p.borrow_mut() = last);
+            std::panic::resume_unwind(payload)
+        }
+    }
+}
+
 /// Execute one scenario with panic isolation.
 pub fn exec_one<P: Property>(p: &P, sc: &P::Sc, trace: bool) -> RunOutput {
     let mut ctx = Ctx::new(trace);
